@@ -1,15 +1,19 @@
-import TinysetModel.Proofs.TotalSites
+import TinysetModel.Proofs.Total32Insert
+import TinysetModel.Proofs.CoreInst
 import TinysetModel.Proofs.RemoveTotal
 import TinysetModel.Proofs.PropsAux
 import TinysetModel.Proofs.CapSpec
 /-! Total correctness of the public surface, part 1: `fromIterSorted` / `fromIter` (collect) and `remove`
 return normally.
 
-The pre-sized table that `fromIterSorted` creates is *good* (`RefillGood`, `Proofs/TotalFill.lean`) for the
-values it is about to receive, so the fill loop takes only non-growing branches: recursion depth one
-(fuel `fuel + 1`) is enough, and the only size condition is `v.length + W + 3 ≤ 2 ^ W` (the plain-table
-placeholder scan).  `remove` needs no size condition at all: the heap layouts never allocate
-(`remove_heap_total`), and an inline value has at most `maxN` members. -/
+The pre-sized dense block / bitmap table that `fromIterSorted` creates is *good* (`RefillGoodS`,
+`Proofs/Total32Fill.lean`) for the values it is about to receive, so the fill loop takes only non-growing
+branches.  The pre-sized plain table has exactly `v.length` buckets, which under the `SetU32` room rule is not
+enough to avoid growth; but the plain layout grows in place, without a recursive `insert` (`plainFill_total`).
+Either way recursion depth one (fuel `fuel + 1`) is enough, and the only size condition is
+`SizeFits c v.length` (the plain-table placeholder scan, for a table that may have grown).  `remove` needs no
+size condition at all: the heap layouts never allocate (`remove_heap_total`), and an inline value has at most
+`maxN` members. -/
 namespace SC
 open RH Plain2
 
@@ -29,17 +33,58 @@ theorem total_length_pos_of_getLast {v : List Nat} {mx : Nat} (hl : v.getLast? =
   | nil => cases hl
   | cons x xs => exact Nat.succ_pos _
 
+/-- a ghost bound small enough for the size conditions of `insert_total` -/
+def SizeFits (c : Cfg) (N : Nat) : Prop := 3 * N + 5 + c.W + 3 ≤ 2 ^ c.W
+
+theorem SizeFits.mono {N N' : Nat} (h : SizeFits c N) (hle : N' ≤ N) : SizeFits c N' := by
+  unfold SizeFits at *; omega
+
+theorem allCores (ok : CfgOK c) (g : Rng D) : ∀ fuel, CoreOK c g fuel := fun fuel => coreOK ok g fuel
+
 /-- the fill loop of `fromIterSorted`, into a good table -/
-theorem fill_total (ok : CfgOK c) (lk : Like64 c) (g : Rng D) (fuel : Nat) {v : List Nat}
-    (hrange : ∀ x ∈ v, x < 2 ^ c.W) {s : Rp} (gd : RefillGood c v s) (d : D) :
+theorem fill_total (ok : CfgOK c) (g : Rng D) (fuel : Nat) {v : List Nat}
+    (hrange : ∀ x ∈ v, x < 2 ^ c.W) {s : Rp} (gd : RefillGoodS c v s) (d : D) :
     ∃ r d', insertAll (insert c g (fuel + 1)) s v d = .ok (r, d') := by
-  obtain ⟨r, d', h, _⟩ := insertAll_total ok lk.room g (insert c g fuel) (insert_refines ok g fuel) v s d gd
+  obtain ⟨r, d', h, _⟩ := insertAll_totalS ok g (insert c g fuel) (insert_refines ok g fuel) v s d gd
     (fun x hx => ⟨hx, hrange x hx⟩)
   exact ⟨r, d', h⟩
 
+/-- a loop of inserts into a plain table returns with recursion depth 1, whatever the room rule: the plain
+    layout grows in place (no recursive `insert`), and its capacity stays within the ghost bound -/
+theorem plainFill_total (ok : CfgOK c) (cc : CapCfg c) (g : Rng D) (fuel : Nat) {N : Nat} (hN : SizeFits c N) :
+    ∀ (xs : List Nat) (sz cap bits : Nat) (a : Tbl) (d : D) (M : Nat), WF c (.heap sz cap bits a) → c.W < bits →
+      (∀ x ∈ xs, x < 2 ^ c.W) → CapOK (.heap sz cap bits a) M → M ≤ N → sz + xs.length ≤ N →
+      ∃ r' d', insertAll (insert c g (fuel + 1)) (.heap sz cap bits a) xs d = .ok (r', d') := by
+  intro xs
+  induction xs with
+  | nil => intro sz cap bits a d M _ _ _ _ _ _; exact ⟨_, d, rfl⟩
+  | cons x xs ih =>
+    intro sz cap bits a d M wf hW hx hc hMN hfit
+    rw [List.length_cons] at hfit
+    have hp := isPlain_of_gt (c := c) hW
+    have hd := isDense_of_gt (c := c) hW
+    have hx1 := hx x List.mem_cons_self
+    have hcapeq := (plain_unfold wf hp hd).2.1
+    have hc1 : cap ≤ 3 * M + 5 := hc.1
+    obtain ⟨r1, b, d1, h1⟩ := insertPlain_total ok g wf hp hd x hx1 d
+      (by unfold SizeFits at hN; rw [← hcapeq]; omega)
+    have h1' : insert c g (fuel + 1) (.heap sz cap bits a) x d = .ok ((r1, b), d1) := by
+      rw [insert_succ, insertStep, if_neg (by rw [hd]; exact Bool.false_ne_true), if_pos hp]; exact h1
+    have sp := insert_refines ok g (fuel + 1) _ x d r1 b d1 wf hx1 h1'
+    have cp := insert_capOK ok cc g (allCores ok g) (fuel + 1) _ x d r1 b d1 M wf hx1 hc h1'
+    have hl := len_of_InsOK ok wf sp
+    obtain ⟨sz', cap', bits', a', hr1, hW', _⟩ := insertPlain_shape ok g wf hp hd x hx1 d d1 r1 b h1
+    subst hr1
+    have hle : sz' ≤ sz + 1 := by
+      have : sz' = if b = true then sz + 1 else sz := hl
+      rw [this]; split <;> omega
+    obtain ⟨r', d', h2⟩ := ih sz' cap' bits' a' d1 (Max.max M sz') sp.wf hW'
+      (fun y hy => hx y (List.mem_cons_of_mem _ hy)) cp (Nat.max_le.2 ⟨hMN, by omega⟩) (by omega)
+    exact ⟨r', d', by rw [insertAll_cons_ok _ _ _ _ _ h1']; exact h2⟩
+
 /-- **`fromIterSorted` returns normally** for a sorted duplicate-free list of in-range values, with fuel `≥ 1` -/
-theorem fromIterSorted_total (ok : CfgOK c) (lk : Like64 c) (g : Rng D) (fuel : Nat) (v : List Nat)
-    (hsorted : v.Pairwise (· < ·)) (hrange : ∀ x ∈ v, x < 2 ^ c.W) (hsmall : v.length + c.W + 3 ≤ 2 ^ c.W) (d : D) :
+theorem fromIterSorted_total (ok : CfgOK c) (lk : LikeS c) (cc : CapCfg c) (g : Rng D) (fuel : Nat) (v : List Nat)
+    (hsorted : v.Pairwise (· < ·)) (hrange : ∀ x ∈ v, x < 2 ^ c.W) (hsmall : SizeFits c v.length) (d : D) :
     ∃ r d', fromIterSorted c g (fuel + 1) v d = .ok (r, d') := by
   unfold fromIterSorted
   cases hl : v.getLast? with
@@ -53,46 +98,58 @@ theorem fromIterSorted_total (ok : CfgOK c) (lk : Like64 c) (g : Rng D) (fuel : 
       have hmx := total_le_of_getLast hsorted hl
       have hpos := total_length_pos_of_getLast hl
       by_cases h1 : v.length > mx >>> 4
-      · rw [if_pos h1]
-        obtain ⟨s, d1, h2, gd⟩ := withCapMax_good ok lk g (V := v) (cap := v.length) (mx := mx) hpos hmx
-          (Nat.le_refl _) hsmall d
-        obtain ⟨r, d', h3⟩ := fill_total ok lk g fuel hrange gd d1
+      · -- always the dense layout
+        rw [if_pos h1]
+        have hdf := lk.dense_first mx
+        have h2 : withCapMax c g v.length mx d = .ok (denseWithMax c mx, d) := by
+          unfold withCapMax
+          rw [if_pos (by omega)]; rfl
+        obtain ⟨r, d', h3⟩ := fill_total ok g fuel hrange (denseWithMax_goodS ok lk hmx) d
         exact ⟨r, d', by rw [bind_run h2]; exact h3⟩
       · rw [if_neg h1]
         by_cases h4 : c.cab mx = 0
-        · rw [if_pos h4]
-          obtain ⟨s, d1, h2, gd⟩ := withCapBits_good ok g (V := v) (cap := v.length) (bits := c.cab mx) hpos
-            (Or.inl h4) (fun y hy => lk.cab_mono y mx (hmx y hy)) (fun _ => hsmall)
-            ⟨v, pairwise_lt_nodup hsorted, Nat.le_refl _, fun y hy => by
-              rw [h4, Nat.max_eq_right (Nat.zero_le 1), Nat.div_one]; exact hy⟩ d
-          obtain ⟨r, d', h3⟩ := fill_total ok lk g fuel hrange gd d1
-          exact ⟨r, d', by rw [bind_run h2]; exact h3⟩
+        · -- plain table with exactly `v.length` buckets: may grow in place while it is filled
+          rw [if_pos h4]
+          obtain ⟨s, d1, h2⟩ := withCapBits_total (c := c) g v.length (c.cab mx) d
+          obtain ⟨wf, hempty⟩ := withCapBits_ok ok g v.length (c.cab mx)
+            (by rw [h4]; exact Nat.two_pow_pos _) d d1 s h2
+          rcases withCapBits_shape g v.length (c.cab mx) d d1 s h2 with ⟨h0, _⟩ | ⟨_, bits', hr, _, heq⟩
+          · omega
+          · subst hr
+            have hW := heq h4
+            have hlen0 : len (Rp.heap 0 v.length bits' (Array.replicate v.length 0)) = 0 := rfl
+            obtain ⟨r, d', h3⟩ := plainFill_total ok cc g fuel hsmall v 0 v.length bits' _ d1 v.length wf hW hrange
+              ⟨by show v.length ≤ 3 * v.length + 5; omega, by rw [hlen0]; omega⟩
+              (Nat.le_refl _) (by omega)
+            exact ⟨r, d', by rw [bind_run h2]; exact h3⟩
         · rw [if_neg h4]
           have hb : 0 < c.cab mx ∧ c.cab mx < c.W := by
-            rcases lk.cab_range mx with h | h
+            rcases lk.cab_range mx (by omega) with h | h
             · exact absurd h h4
             · exact h
-          obtain ⟨s, d1, h2, gd⟩ := withCapBits_good ok g (V := v)
+          have hpf := lk.presize_fit (v.map (· / c.cab mx)).eraseDups.length
+          obtain ⟨s, d1, h2, gd⟩ := withCapBits_goodS ok g (V := v)
             (cap := ((v.map (· / c.cab mx)).eraseDups.length + 1) * 11 / 10) (bits := c.cab mx) (by omega)
             (Or.inr hb) (fun y hy => lk.cab_mono y mx (hmx y hy)) (fun h0 => absurd h0 h4)
-            ⟨(v.map (· / c.cab mx)).eraseDups, nodup_eraseDups _, by omega, fun y hy => by
+            ⟨(v.map (· / c.cab mx)).eraseDups, nodup_eraseDups _, hpf, fun y hy => by
               rw [Nat.max_eq_left hb.1, List.mem_eraseDups]
               exact List.mem_map.2 ⟨y, hy, rfl⟩⟩ d
-          obtain ⟨r, d', h3⟩ := fill_total ok lk g fuel hrange gd d1
+          obtain ⟨r, d', h3⟩ := fill_total ok g fuel hrange gd d1
           exact ⟨r, d', by rw [bind_run h2]; exact h3⟩
 
 /-- **`collect` returns normally** -/
-theorem fromIter_total (ok : CfgOK c) (lk : Like64 c) (g : Rng D) (fuel : Nat) (xs : List Nat)
-    (hrange : ∀ x ∈ xs, x < 2 ^ c.W) (hlen : xs.length + c.W + 3 ≤ 2 ^ c.W) (d : D) :
+theorem fromIter_total (ok : CfgOK c) (lk : LikeS c) (cc : CapCfg c) (g : Rng D) (fuel : Nat) (xs : List Nat)
+    (hrange : ∀ x ∈ xs, x < 2 ^ c.W) (hlen : SizeFits c xs.length) (d : D) :
     ∃ r d', fromIter c g (fuel + 1) xs d = .ok (r, d') := by
   unfold fromIter
   obtain ⟨s1, s2⟩ := sortDedup_spec xs
   have := sortDedup_length_le xs
-  exact fromIterSorted_total ok lk g fuel (sortDedup xs) s1 (fun x hx => hrange x ((s2 x).1 hx)) (by omega) d
+  exact fromIterSorted_total ok lk cc g fuel (sortDedup xs) s1 (fun x hx => hrange x ((s2 x).1 hx))
+    (hlen.mono this) d
 
 /-- **`remove` returns normally**, for every well-formed set and every in-range value, with fuel `≥ 1`
     (no size condition: the heap layouts never allocate, an inline value is rebuilt from `< maxN` members) -/
-theorem remove_total (ok : CfgOK c) (lk : Like64 c) (g : Rng D) (fuel : Nat) {r : Rp} (wf : WF c r) (e : Nat)
+theorem remove_total (ok : CfgOK c) (lk : LikeS c) (cc : CapCfg c) (g : Rng D) (fuel : Nat) {r : Rp} (wf : WF c r) (e : Nat)
     (he : e < 2 ^ c.W) (d : D) : ∃ r' b d', remove c g (fuel + 1) r e d = .ok ((r', b), d') := by
   match r, wf with
   | .empty, _ => exact ⟨_, _, _, rfl⟩
@@ -106,10 +163,10 @@ theorem remove_total (ok : CfgOK c) (lk : Like64 c) (g : Rng D) (fuel : Nat) {r 
         have hlen := List.length_filter_le (fun x => decide (x ≠ e)) (t.members c.codec)
         rw [stack_members_length ok wf] at hlen
         have := wf.sz_le
-        have := lk.codec_small
-        obtain ⟨r1, d1, h2⟩ := fromIterSorted_total ok lk g fuel ((t.members c.codec).filter (· ≠ e))
+        have := lk.codec_small3
+        obtain ⟨r1, d1, h2⟩ := fromIterSorted_total ok lk cc g fuel ((t.members c.codec).filter (· ≠ e))
           ((members_sorted (c := c) t).filter _)
-          (fun x hx => wf.range x (List.mem_filter.1 hx).1) (by omega) d
+          (fun x hx => wf.range x (List.mem_filter.1 hx).1) (by unfold SizeFits; omega) d
         exact ⟨r1, true, d1, by rw [bind_run h2]; rfl⟩
     · rw [if_neg hc]; exact ⟨_, _, _, rfl⟩
   | .heap sz cap bits a, wf =>
@@ -121,7 +178,7 @@ theorem remove_total (ok : CfgOK c) (lk : Like64 c) (g : Rng D) (fuel : Nat) {r 
 /-- `SetU64::remove` returns normally (recursion depth 1 is enough; in particular every fuel `fuel + 2`) -/
 theorem remove_total_u64 (g : Rng D) (fuel : Nat) {r : Rp} (wf : WF cfg64 r) (e : Nat) (he : e < 2 ^ 64) (d : D) :
     ∃ r' b d', remove cfg64 g (fuel + 2) r e d = .ok ((r', b), d') :=
-  remove_total cfg64_ok cfg64_like g (fuel + 1) wf e he d
+  remove_total cfg64_ok cfg64_likeS capCfg64 g (fuel + 1) wf e he d
 
 /-- total correctness of `SetU64::remove` -/
 theorem remove_total_correct_u64 (g : Rng D) (fuel : Nat) {r : Rp} (wf : WF cfg64 r) (e : Nat) (he : e < 2 ^ 64)
@@ -132,8 +189,8 @@ theorem remove_total_correct_u64 (g : Rng D) (fuel : Nat) {r : Rp} (wf : WF cfg6
 /-- `collect::<SetU64>()` returns normally for every sequence of fewer than `2^60` values -/
 theorem fromIter_total_u64 (g : Rng D) (fuel : Nat) (xs : List Nat) (hrange : ∀ x ∈ xs, x < 2 ^ 64)
     (hlen : xs.length < 2 ^ 60) (d : D) : ∃ r d', fromIter cfg64 g (fuel + 2) xs d = .ok (r, d') :=
-  fromIter_total cfg64_ok cfg64_like g (fuel + 1) xs hrange
-    (by have : cfg64.W = 64 := rfl; rw [this]; omega) d
+  fromIter_total cfg64_ok cfg64_likeS capCfg64 g (fuel + 1) xs hrange
+    (by have : cfg64.W = 64 := rfl; unfold SizeFits; rw [this]; omega) d
 
 /-- total correctness of `collect::<SetU64>()`: the result is well formed and holds exactly the values given -/
 theorem fromIter_total_correct_u64 (g : Rng D) (fuel : Nat) (xs : List Nat) (hrange : ∀ x ∈ xs, x < 2 ^ 64)
@@ -142,7 +199,42 @@ theorem fromIter_total_correct_u64 (g : Rng D) (fuel : Nat) (xs : List Nat) (hra
   obtain ⟨r, d', h⟩ := fromIter_total_u64 g fuel xs hrange hlen d
   exact ⟨r, d', h, fromIter_ok cfg64_ok g (fuel + 2) (insert_refines cfg64_ok g (fuel + 2)) xs hrange d d' r h⟩
 
+/-! ### the `SetU32` instances -/
+
+theorem sizeFits32 {N : Nat} (h : N ≤ 2 ^ 30) : SizeFits cfg32 N := by
+  have : cfg32.W = 32 := rfl
+  unfold SizeFits
+  rw [this]
+  omega
+
+/-- `SetU32::remove` returns normally -/
+theorem remove_total_u32 (g : Rng D) (fuel : Nat) {r : Rp} (wf : WF cfg32 r) (e : Nat) (he : e < 2 ^ 32) (d : D) :
+    ∃ r' b d', remove cfg32 g (fuel + 2) r e d = .ok ((r', b), d') :=
+  remove_total cfg32_ok cfg32_likeS capCfg32 g (fuel + 1) wf e he d
+
+/-- total correctness of `SetU32::remove` -/
+theorem remove_total_correct_u32 (g : Rng D) (fuel : Nat) {r : Rp} (wf : WF cfg32 r) (e : Nat) (he : e < 2 ^ 32)
+    (d : D) : ∃ r' b d', remove cfg32 g (fuel + 2) r e d = .ok ((r', b), d') ∧ RemOK cfg32 r e r' b := by
+  obtain ⟨r', b, d', h⟩ := remove_total_u32 g fuel wf e he d
+  exact ⟨r', b, d', h, remove_refines cfg32_ok g (fuel + 2) wf e he h⟩
+
+/-- `collect::<SetU32>()` returns normally for every sequence of fewer than `2^28` values -/
+theorem fromIter_total_u32 (g : Rng D) (fuel : Nat) (xs : List Nat) (hrange : ∀ x ∈ xs, x < 2 ^ 32)
+    (hlen : xs.length < 2 ^ 28) (d : D) : ∃ r d', fromIter cfg32 g (fuel + 2) xs d = .ok (r, d') :=
+  fromIter_total cfg32_ok cfg32_likeS capCfg32 g (fuel + 1) xs hrange (sizeFits32 (by omega)) d
+
+/-- total correctness of `collect::<SetU32>()` -/
+theorem fromIter_total_correct_u32 (g : Rng D) (fuel : Nat) (xs : List Nat) (hrange : ∀ x ∈ xs, x < 2 ^ 32)
+    (hlen : xs.length < 2 ^ 28) (d : D) :
+    ∃ r d', fromIter cfg32 g (fuel + 2) xs d = .ok (r, d') ∧ WF cfg32 r ∧ ∀ x, x ∈ elems cfg32 r ↔ x ∈ xs := by
+  obtain ⟨r, d', h⟩ := fromIter_total_u32 g fuel xs hrange hlen d
+  exact ⟨r, d', h, fromIter_ok cfg32_ok g (fuel + 2) (insert_refines cfg32_ok g (fuel + 2)) xs hrange d d' r h⟩
+
 #print axioms fromIterSorted_total
+#print axioms remove_total_u32
+#print axioms remove_total_correct_u32
+#print axioms fromIter_total_u32
+#print axioms fromIter_total_correct_u32
 #print axioms fromIter_total
 #print axioms remove_total
 #print axioms remove_total_u64
